@@ -330,6 +330,10 @@ func (f *FieldCopyToGenerator) genListOrMap() *j.Statement {
 						f.genPrimitiveBody("a", g)
 					} else {
 						m := NewMessageCopyToGenerator(f.getValueField().Message, f.i)
+						if m.IsEmpty && !f.IsNullable {
+							// An element without fields is never read, keep the range variable used
+							g.Id("_").Op("=").Id("a")
+						}
 						f.genObjectBody(m, "a", f.i.WithType(f.Field.ElemValueType), g)
 					}
 					g.Id("c.Elems").Index(j.Id("k")).Op("=").Id("v")
